@@ -7,7 +7,7 @@
     exactly when the discipline allows it.  The two slips the discipline excludes are expressible as operations
     ([WWrite _ _ false]: a frame sent without the lock; [WClose false]: [closed] read before the lock is taken).
     Definitions only. *)
-From GV Require Import Base.Prelude.
+From GV Require Import Base.Prelude Base.Threads.
 Open Scope nat_scope.
 Open Scope list_scope.
 
@@ -39,16 +39,6 @@ Record wsstate := {
 
 Definition holding (t : wthread) : bool := match t_pc t with WHeld | WWriting | WWrote => true | _ => false end.
 Definition writing (t : wthread) : bool := match t_pc t with WWriting | WUWriting => true | _ => false end.
-
-Fixpoint count {A} (f : A -> bool) (l : list A) {struct l} : nat :=
-  match l with [] => 0 | x :: r => (if f x then 1 else 0) + count f r end.
-
-Fixpoint upd {A} (i : nat) (x : A) (l : list A) {struct l} : list A :=
-  match l, i with
-  | [], _ => []
-  | _ :: r, O => x :: r
-  | y :: r, S j => y :: upd j x r
-  end.
 
 Definition start_thread (p : list wop) : wthread := {| t_pc := WIdle; t_prog := p; t_forced := false; t_done := []; t_prog0 := p |}.
 Definition wsinit (progs : list (list wop)) : wsstate :=
